@@ -18,6 +18,9 @@ CONFIGS_QUICK = [
     ("ScreenGui", ["IgnoreGuiInset", "ScreenInsets"], 2),
     ("MeshPart", ["MeshId", "MeshContent", "TextureID"], 2),
     ("VerifUnknownClass", ["AlphaS", "BetaV", "GammaI"], 2),
+    # a SharedString column without database default: the neutral (empty) value of the instance lacking it lives in the
+    # file's SSTR table like every other
+    ("VerifUnknownClass", ["DeltaH", "BetaV"], 2),
     # a legacy (migrating) spelling next to an unrelated property whose value has the migration's input type
     ("ScreenGui", ["IgnoreGuiInset", "ClipToDeviceSafeArea", "ScreenInsets"], 2),
     ("TextLabel", ["Font", "TextXAlignment", "FontFace"], 2),
